@@ -153,6 +153,51 @@ func init() {
 		}
 		return []string{usedTable(a[0], t), strings.Join(parts, ","), strconv.Itoa(bad)}, nil
 	})
+	// opthist SPEC n STEP... : a history on ONE private table instance (deep copy of SPEC's table).
+	//   W:seq      re-weight the instance in place with OptimizeTable(seq) (same backing arrays)
+	//   O:protein  -> "O", table text now, then n times: status, dna, status of Translate(dna), value
+	//   T:dna      -> "T", table text now, status of Translate(dna), value
+	//   S:i,j      swap the letters of amino-acid entries i and j (mod the number of entries) through the
+	//              exported fields: the same instance now holds a different code
+	runner.Register("opthist", func(a []string) ([]string, error) {
+		t0, err := c0607Table(a[0])
+		if err != nil {
+			return nil, err
+		}
+		n, _ := strconv.Atoi(a[1])
+		t := parseTableText(tableText(t0))
+		var out []string
+		for _, step := range a[2:] {
+			switch {
+			case strings.HasPrefix(step, "W:"):
+				t = t.OptimizeTable(step[2:])
+			case strings.HasPrefix(step, "O:"):
+				out = append(out, "O", tableText(t))
+				for i := 0; i < n; i++ {
+					st, dna := c07Optimize(step[2:], t)
+					tst, tv := "-", ""
+					if st == "ok" {
+						tst, tv = c06Translate(dna, t)
+					}
+					out = append(out, st, dna, tst, tv)
+				}
+			case strings.HasPrefix(step, "T:"):
+				st, v := c06Translate(step[2:], t)
+				out = append(out, "T", tableText(t), st, v)
+			case strings.HasPrefix(step, "S:"):
+				ij := strings.SplitN(step[2:], ",", 2)
+				if len(ij) == 2 && len(t.AminoAcids) > 0 {
+					i, _ := strconv.Atoi(ij[0])
+					j, _ := strconv.Atoi(ij[1])
+					i, j = i%len(t.AminoAcids), j%len(t.AminoAcids)
+					t.AminoAcids[i].Letter, t.AminoAcids[j].Letter = t.AminoAcids[j].Letter, t.AminoAcids[i].Letter
+				}
+			default:
+				return nil, errors.New("bad step")
+			}
+		}
+		return out, nil
+	})
 	// randprot length seed SPEC -> status of ProteinSequence, protein, table, status of Optimize, dna, status of Translate, value
 	runner.Register("randprot", func(a []string) ([]string, error) {
 		length, _ := strconv.Atoi(a[0])
